@@ -433,8 +433,13 @@ class _UnboundNameFinder(ast.RopeNodeVisitor):
             .pyobject
         )
         visitor = _LocalUnboundNameFinder(pyobject, self)
-        for child in ast.iter_child_nodes(node):
+        for child in node.body:
             visitor.visit(child)
+        # decorators, defaults, annotations, bases and keywords are evaluated
+        # in the enclosing scope, not in the scope the definition creates
+        for child in ast.iter_child_nodes(node):
+            if child not in node.body:
+                self.visit(child)
 
     def _FunctionDef(self, node):
         self._visit_child_scope(node)
